@@ -331,6 +331,15 @@ struct QueTarget
             bool const fore = (o.kind - 200) == Q_PUSH_FORE_SORT;
             bool const was_sorted = sorted(x.M, x.z);
             size_t const before = x.M.size();
+            if (was_sorted && ((uint64_t)(o.a[0] < 0 ? -o.a[0] : o.a[0]) >> 5) % 6 == 0)
+            { // the re-sorting step alone on a queue that is sorted already (empty and one-element queues included): nothing may move
+                char const *name0 = fore ? "a_que_sort_fore" : "a_que_sort_back";
+                c.st.add(before == 0 ? "probe.sort_step_on_empty_sequence" : before == 1 ? "probe.sort_step_on_single_element" : "probe.sort_step_on_sorted_sequence");
+                c.site(name0);
+                if (fore) a_que_sort_fore(q, elem_cmp); else a_que_sort_back(q, elem_cmp);
+                check(x, name0);
+                break;
+            }
             if (fore) { if (!do_push(x, "a_que_push_fore", [&] { return a_que_push_fore(q); }, 0, o.a[0])) break; }
             else { if (!do_push(x, "a_que_push_back", [&] { return a_que_push_back(q); }, (long)len, o.a[0])) break; }
             if (!was_sorted || x.M.size() == before) break;
